@@ -196,7 +196,8 @@ structure LState where
   afterDoc : Bool            -- the previous token was a doc line: the gap must start with a line break
 
 def gapCatalogue : List String :=
-  [" ", "  ", "\n", "\t", " \n  ", "\r\n", " /* c */ ", " // c\n", "\n\n    ", " /* é\n x */\n", "\t\t "]
+  [" ", "  ", "\n", "\t", " \n  ", "\r\n", " /* c */ ", " // c\n", "\n\n    ", " /* é\n x */\n", "\t\t ",
+   "/*é✓ü*/", "/* peut être → ✓ */", "/**/", "/***/", "//é✓\n", "/* * / */"]
 
 /-- style 0 = canonical; otherwise pseudo-random layout driven by the state's generator -/
 def emitGap (style : Nat) (st : LState) (canon : String) (mandatory : Bool) : LState :=
